@@ -165,6 +165,22 @@ func (h Header) contentLength() (int, error) {
 	return int(n), nil
 }
 
+// setContentLength 在输出消息前根据 Body 的长度设置（Body 为空则删除）Content-Length。
+// 大小写不同的同名域（例如调用者用 Set("content-length", ...) 设置的）一并删除，
+// 否则会输出和 Body 不一致的长度，对端按它分帧后续数据全部错位。
+func (h Header) setContentLength(n int) {
+	for k := range h {
+		if k != FieldContentLength && strings.EqualFold(k, FieldContentLength) {
+			delete(h, k)
+		}
+	}
+	if n > 0 {
+		h.SetInt(FieldContentLength, n)
+	} else {
+		delete(h, FieldContentLength)
+	}
+}
+
 // Setf 格式化的设置头部域
 func (h Header) Setf(key, format string, a ...interface{}) string {
 	value := fmt.Sprintf(format, a...)
